@@ -523,6 +523,48 @@ def read_pdag(p):
     return nodes, d, u
 
 
+def call_sites():
+    """{site: (filename, {line numbers})} of the two one-directional adjacency tests, located in the source text
+    of the *loaded* functions.  The source file is accepted only if compiling it reproduces the byte code of the
+    loaded function (guards against the tree changing under a running worker)."""
+    if "sites" in _CACHE:
+        return _CACHE["sites"]
+    from pgmpy.base import PDAG
+    from pgmpy.estimators.PC import PC
+
+    def find(code, name, first):
+        if code.co_name == name and code.co_firstlineno == first:
+            return code
+        for c in code.co_consts:
+            if hasattr(c, "co_code"):
+                r = find(c, name, first)
+                if r is not None:
+                    return r
+        return None
+
+    def nested_lines(code):
+        out = {ln for (_, _, ln) in code.co_lines() if ln is not None}
+        for c in code.co_consts:
+            if hasattr(c, "co_code"):
+                out |= nested_lines(c)
+        return out
+
+    out = {}
+    for site, fn, needle in (("r1", PC.skeleton_to_pdag, "if not pdag.has_edge(X, Y)"),
+                             ("clique", PDAG.to_dag, "pdag.has_edge(Y, Z)")):
+        code = fn.__code__
+        with open(code.co_filename) as fh:
+            src = fh.read()
+        twin = find(compile(src, code.co_filename, "exec", dont_inherit=True), code.co_name, code.co_firstlineno)
+        if twin is None or twin.co_code != code.co_code:
+            raise AssertionError(f"{code.co_filename} changed on disk after it was imported; run is not meaningful")
+        span = nested_lines(code)
+        lines = src.splitlines()
+        out[site] = (code.co_filename, {ln for ln in span if lines[ln - 1].strip().startswith(needle)})
+    _CACHE["sites"] = out
+    return out
+
+
 class Neutral:
     """Confirmation of a classified mechanism by re-running the same call with the triggering feature
     neutralised: while active, the two one-directional adjacency tests named in the known findings
@@ -536,30 +578,23 @@ class Neutral:
         self.hits = 0
 
     def __enter__(self):
-        import linecache
         import sys
         import networkx as nx
         self._nx = nx
         self._own = nx.DiGraph.__dict__.get("has_edge")       # None: inherited from nx.Graph
         orig = nx.DiGraph.has_edge
         me = self
+        sites = {k: v for k, v in call_sites().items() if k in self.sites}
+        where = {(fn, ln) for (fn, lns) in sites.values() for ln in lns}
 
         def has_edge(g, u, v):
             r = orig(g, u, v)
             if r:
                 return r
             f = sys._getframe(1)
-            fn = f.f_code.co_filename
-            if "r1" in me.sites and fn.endswith("PC.py") and f.f_code.co_name == "skeleton_to_pdag":
-                if linecache.getline(fn, f.f_lineno).strip().startswith("if not pdag.has_edge(X, Y)"):
-                    if orig(g, v, u):
-                        me.hits += 1
-                        return True
-            elif "clique" in me.sites and fn.endswith("DAG.py"):
-                if linecache.getline(fn, f.f_lineno).strip().startswith("pdag.has_edge(Y, Z)"):
-                    if orig(g, v, u):
-                        me.hits += 1
-                        return True
+            if (f.f_code.co_filename, f.f_lineno) in where and orig(g, v, u):
+                me.hits += 1
+                return True
             return r
 
         nx.DiGraph.has_edge = has_edge
@@ -586,6 +621,8 @@ def setup(ctx):
             bad += 1
     if bad:
         raise AssertionError(f"oracle.cpdag_meek disagrees with class enumeration on {bad} small DAGs")
+    sites = call_sites()
+    ctx._c12_sites = {k: sorted(v[1]) for k, v in sites.items()}
     ctx._c12 = {"meek_crosschecked": N_SMALL, "dt_crosschecked": 0, "fallback_on_extendable": 0, "ci_questions": 0}
     if ctx.tier == "thorough" and os.environ.get("RV_C12_MEEK5", "1") == "1":
         import random
@@ -897,9 +934,12 @@ def confirm_todag(ctx, build, judge):
         p = ctx.call(build)
         r2 = None if ctx.failed(p) else ctx.call(p.to_dag)
     try:
-        return r2 is not None and not ctx.failed(r2) and nt.hits > 0 and not judge(r2)
-    except Exception:
+        ok = r2 is not None and not ctx.failed(r2) and nt.hits > 0 and not judge(r2)
+    except Exception as e:
+        ctx.last_confirm = f"confirm raised {e!r}"
         return False
+    ctx.last_confirm = f"hits={nt.hits} r2={r2!r} problems={None if r2 is None or ctx.failed(r2) else judge(r2)}"
+    return ok
 
 
 def call_to_dag(ctx, pdag):
@@ -988,7 +1028,8 @@ def check_pdag_view(ctx, view, ext, label):
         if fallback and one_sided_stuck_reachable(nodes, D, U) and confirm_todag(ctx, build, judge):
             k = K_CLIQUE
         ctx.violation(k, f"{label}: to_dag on an extendable PDAG: " + "; ".join(problems) +
-                      f"; result {sorted(re_, key=repr)}; fallback branch taken: {fallback}", **det)
+                      f"; result {sorted(re_, key=repr)}; fallback branch taken: {fallback}",
+                      confirm=getattr(ctx, "last_confirm", None), **det)
     else:
         ctx.ok()
     ctx.expect(rn == set(nodes), "c12:wrong-node-set",
